@@ -13,6 +13,8 @@ TInit == /\ tid \in 1 .. Len(Traces) /\ l = 1
 TStep(e) == \/ e.op = "target" /\ SetTarget(e.v)
             \/ e.op = "switches" /\ Switches(e.o, e.c)
             \/ e.op = "advance" /\ Advance(e.dt)
+            \/ e.op = "movingtime" /\ SetMovingTime(e.mt)
+            \/ e.op = "safestate" /\ SetSafeState(e.s)
             \/ /\ e.op = "update" /\ e.res = "ok"
                /\ \E conf \in BOOLEAN : Update(conf)
                /\ coil' = e.coil /\ target' = e.target /\ error' = e.error
